@@ -54,6 +54,11 @@ fn main() {
             let cov = c07::run(&rep);
             rep.finish(cov)
         }
+        "c09" => {
+            let rep = Report::new("C09", "model_checking");
+            let cov = c06::run_c09(&rep);
+            rep.finish(cov)
+        }
         "c06" => {
             let rep = Report::new("C06", "model_checking");
             let cov = c06::run(&rep);
